@@ -191,6 +191,23 @@ def shard_detect(shard, seed, n):
     return run
 
 
+def shard_detect_enum(shard, nshards, stride, offset):
+    """Bounded-exhaustive: detection on every one- / two-operator term and connective / quantifier combination."""
+    from vf import enumterms
+    run = Run(PID)
+    idx = 0
+    for t in itertools.chain(enumterms.bool_quant_terms(), (x for v in enumterms.depth1().values() for x in v),
+                             enumterms.depth2()):
+        idx += 1
+        if idx % nshards != shard:
+            continue
+        if idx > 9000 and (idx // nshards) % stride != offset % stride:
+            continue
+        check_detection(run, t)
+        run.cls("enumerated-term")
+    return run
+
+
 # ---------------------------------------------------------------- order axioms
 
 FIELDS = ["arrays", "arrays_const", "bit_vectors", "floating_point", "integer_arithmetic", "real_arithmetic",
@@ -388,6 +405,7 @@ def main():
         "theories are restricted to well-formed ones (difference => arithmetic, const arrays => arrays)"])
     thorough = chk.tier == "thorough"
     jobs = [(shard_detect, dict(shard=s, seed=chk.seed, n=30000 if thorough else 1500)) for s in range(10)]
+    jobs += [(shard_detect_enum, dict(shard=s, nshards=8, stride=1 if thorough else 8, offset=chk.seed)) for s in range(8)]
     jobs += [(shard_theory_order, dict(shard=s, nshards=16)) for s in range(16)]
     jobs += [(shard_logic_order, dict())]
     jobs += [(shard_selection, dict(shard=s, nshards=4, seed=chk.seed, nsubsets=4000 if thorough else 250)) for s in range(4)]
